@@ -507,11 +507,21 @@ class Parser():
 
         '''
         invoke_label = get_invoke_label(argument, self._alg_filename)
-        if invoke_label in self._unique_invoke_labels:
+        # Labels are compared as they will be used: InvokeCall prefixes
+        # "invoke_" unless the label already starts with it.
+        full_name = invoke_label
+        if not full_name.startswith(f"{self._invoke_name.lower()}_"):
+            full_name = f"{self._invoke_name.lower()}_{full_name}"
+        if full_name in self._unique_invoke_labels:
             raise ParseError(
                 f"Found multiple named invoke()'s with the same "
                 f"label ('{invoke_label}') when parsing {self._alg_filename}")
-        self._unique_invoke_labels.append(invoke_label)
+        if full_name[len(self._invoke_name)+1:][:1].isdigit():
+            raise ParseError(
+                f"The label '{invoke_label}' of a named invoke() gives the "
+                f"routine name '{full_name}', but names of this form are "
+                f"used for un-named invokes, in {self._alg_filename}")
+        self._unique_invoke_labels.append(full_name)
         return invoke_label
 
 # pylint: enable=too-many-arguments
